@@ -448,3 +448,62 @@ def canary_rounding(u: U):
     u.call(f, h)
     if sched:
         u.check("C18.canary", sched[0] == now + timeout, "false")
+
+
+@unit("C18", "connect.sock_connect_bound", functions=[f"{CONN}:TCPConnector._wrap_create_connection"])
+def sock_connect_bound(u: U):
+    """TCPConnector._wrap_create_connection: every wait of establishing the connection - the TCP connect (happy
+    eyeballs) AND the transport / TLS set-up - lies inside ceil_timeout(timeout.sock_connect); a timeout leaves as
+    TimeoutError (not wrapped into a connector error)"""
+    depth = {"n": 0, "args": []}
+    outside = []
+
+    class _CT:
+        def __init__(self, t, ceil_threshold=5):
+            depth["args"].append(t)
+
+        async def __aenter__(self):
+            depth["n"] += 1
+
+        async def __aexit__(self, *a):
+            depth["n"] -= 1
+            return False
+
+    class _happy:
+        @staticmethod
+        def start_connection(**kw):
+            return SAwait(result="SOCK", raises=(asyncio.TimeoutError(), OSError(111, "refused")), name="start_connection")
+
+    def create_connection(loop, *a, **kw):
+        return SAwait(result=("TRANSPORT", "PROTO"), raises=(asyncio.TimeoutError(), OSError(104, "reset")), name="create_connection")
+
+    class _TO:
+        sock_connect = u.real("sock_connect")
+        ceil_threshold = 5
+
+    class _Req:
+        connection_key = "KEY"
+
+    def hook(y):
+        if depth["n"] == 0:
+            outside.append(y.awaited.name)
+
+    u.suspend_hook = hook
+
+    class _CErr(Exception):
+        def __init__(self, key, exc):
+            self.os_error = exc
+
+    c = u.obj("TCPConnector", {"_local_addr_infos": None, "_happy_eyeballs_delay": 0.25, "_interleave": None, "_loop": "LOOP",
+                               "_socket_factory": None, "_ssl_shutdown_timeout": 0}, {}, shared=False)
+    f = u.load(CONN, "TCPConnector._wrap_create_connection",
+               globals={"ceil_timeout": _CT, "aiohappyeyeballs": _happy, "create_connection": create_connection,
+                        "cert_errors": (), "ssl_errors": (), "ClientConnectorError": _CErr})
+    out = u.call(f, c, "factory", addr_infos=["A"], req=_Req(), timeout=_TO(), client_error=_CErr)
+    u.check("C18.connect.every_wait_under_sock_connect", not outside and depth["args"] and all(a is _TO.sock_connect for a in depth["args"]),
+            f"TCP connect and transport/TLS set-up both run inside ceil_timeout(sock_connect); outside: {outside}")
+    if not out.ok:
+        u.check("C18.connect.timeout_stays_timeout", isinstance(out.exc, (asyncio.TimeoutError, _CErr)), repr(out))
+        if isinstance(out.exc, _CErr):
+            u.check("C18.connect.timeout_not_wrapped", not isinstance(out.exc.os_error, asyncio.TimeoutError),
+                    "a timeout is reported as a timeout error, not as a generic connector error")
